@@ -28,6 +28,10 @@ Assumed contracts (trusted base; `dep:` names in the evidence)
   * `index % n` (integer array, positive int): entries normalised into [0, n); multiset: Mult(index % n, w) =
     Mult(index, w) + Mult(index, w - n) for 0 <= w < n when the entries of `index` lie in [-n, n), 0 outside [0, n).
     (Not used by the unchanged tree; present so that a repair of the negative-alias defect stays decidable.)
+  * `jnp.where(index <op> c, index + n, index)` on an integer-array index (used with `< 0`): entries u with u <op> c
+    become u + n; multiset: Mult(result, w) = [not w <op> c] Mult(index, w) + [(w - n) <op> c] Mult(index, w - n) (exact).
+  * `jax.tree.map(f, tree, *rest)` on container pytrees (list, tuple, dict, jdc.pytree_dataclass such as the Stokes
+    containers): f applied leaf by leaf, same container (extends theories/structs.py).
   * `jnp.zeros(n, dtype)`: n zeros.  `x.at[U].add(C)` (hints `indices_are_sorted`, `unique_indices` ignored on CPU —
     checked natively): out[v] = x[v] + Σ_{j : nrm(U[j]) = v} C[j], where nrm(i) = i for 0 <= i < n, i + n for
     -n <= i < 0, and the entry is dropped otherwise.  The finite sum is the ghost `SSum(U, C, L, n, v)`.
@@ -164,6 +168,8 @@ class IdxV(Value):
         """`index % n` for an integer array and a positive int n: every entry is normalised into [0, n).  In the
         multiset view: Mult(index % n, w) = Σ_j Mult(index, w + j n) for 0 <= w < n, else 0; the terms with j other
         than 0 and -1 vanish for an in-bounds index array (entries in [-n, n))."""
+        if op == 'Add' and is_intlike(other) and known(is_iarr(self.term)) is True:
+            return IdxElemwise('add', self.term, 'Add', other)      # index + c, element-wise (for jnp.where)
         if op != 'Mod' or refl or not is_intlike(other):
             from pyvc.values import NOT_IMPLEMENTED
             return NOT_IMPLEMENTED
@@ -182,6 +188,13 @@ class IdxV(Value):
         out.normalised_from = (self, other)
         return out
 
+    def py_compare(self, interp, op, other, refl):
+        """`index < c` on an integer array: the element-wise test, kept symbolic for jnp.where"""
+        if refl or not is_intlike(other) or known(is_iarr(self.term)) is not True:
+            from pyvc.values import NOT_IMPLEMENTED
+            return NOT_IMPLEMENTED
+        return IdxElemwise('cmp', self.term, op, other)
+
     def py_getattr(self, interp, name):
         if name == 'dtype':
             # only arrays have a dtype; the code guards the access with isinstance(_, Array)
@@ -189,6 +202,27 @@ class IdxV(Value):
                 raise Unsupported('.dtype of an index item not known to be an array')
             return IdxDType(self.term)
         raise Unsupported(f'attribute {name} of an index item')
+
+
+class IdxElemwise(Value):
+    """an element-wise expression over an integer-array index, consumed by jnp.where: ('cmp', t, op, c) = `t <op> c`,
+    ('add', t, 'Add', c) = `t + c`"""
+
+    def __init__(self, what, term, op, const):
+        self.what, self.term, self.op, self.const = what, term, op, const
+
+
+def where_shifted(run, t, op, c, n):
+    """jnp.where(index <op> c, index + n, index): entries u with `u <op> c` become u + n, the others are kept.
+    Multiset view (exact): Mult(result, w) = [not (w <op> c)] Mult(index, w) + [(w - n) <op> c] Mult(index, w - n)"""
+    n, c = to_z3(n), to_z3(c)
+    cond = {'Lt': lambda u: u < c, 'LtE': lambda u: u <= c, 'Gt': lambda u: u > c, 'GtE': lambda u: u >= c}[op]
+    r = fresh_const('wrapped', Idx)
+    w = fresh_int('w')
+    run.assume(is_iarr(r))
+    run.assume(z3.ForAll([w], Mult(r, w) == z3.If(cond(w), 0, Mult(t, w)) + z3.If(cond(w - n), Mult(t, w - n), 0),
+                         patterns=[Mult(r, w)]))
+    return r
 
 
 class IdxDType(Value):
@@ -464,6 +498,61 @@ def install(T: Theory):
             raise Unsupported(f'jnp.unique of {a!r}')
         U, C = unique_contract(run, mult, size, fill_value)
         return (U, C)
+
+    @T.ext('jax.numpy.where')
+    def _where(interp, c, a, b):
+        # the normalisation of negative entries and its variants: jnp.where(index <op> c, index + n, index)
+        if (isinstance(c, IdxElemwise) and c.what == 'cmp' and c.op in ('Lt', 'LtE', 'Gt', 'GtE')
+                and isinstance(a, IdxElemwise) and a.what == 'add' and isinstance(b, IdxV)
+                and z3.eq(c.term, a.term) and z3.eq(c.term, b.term)):
+            out = IdxV(where_shifted(interp.run, b.term, c.op, c.const, a.const))
+            out.normalised_from = (b, a.const)
+            return out
+        raise Unsupported('jnp.where outside the modelled form where(index <op> c, index + n, index)')
+
+    base_map = T.externals['jax.tree.map']
+
+    def _is_pytree_dataclass(ci):
+        import ast as _ast
+        return any(_ast.unparse(d).endswith('pytree_dataclass') for c in ci.mro for d in c.decorators)
+
+    @T.ext('jax.tree.map', 'jax.tree_util.tree_map')
+    def _map(interp, f, tree, *rest, is_leaf=None):
+        """container pytrees: f is applied leaf by leaf (fields of a jdc.pytree_dataclass in declaration order, items
+        of a list / tuple, values of a dict), the result has the same container; extra trees must have the same
+        container type and arity"""
+        def sub(i, key):
+            out = []
+            for r in rest:
+                if isinstance(tree, Obj):
+                    if not (isinstance(r, Obj) and r.cls is tree.cls):
+                        raise Unsupported('tree.map: mismatching trees')
+                    out.append(r.fields[key])
+                elif isinstance(tree, dict):
+                    if not (isinstance(r, dict) and list(r) == list(tree)):
+                        raise Unsupported('tree.map: mismatching trees')
+                    out.append(r[key])
+                else:
+                    items = r.items if isinstance(r, B.PyList) else r
+                    if type(r) is not type(tree) or (isinstance(r, B.PyList) and r.seq is not None) or len(items) != n:
+                        raise Unsupported('tree.map: mismatching trees')
+                    out.append(items[i])
+            return out
+        if isinstance(tree, Obj) and _is_pytree_dataclass(tree.cls):
+            names = [fl.name for fl in tree.cls.all_fields()]
+            new = Obj(tree.cls)
+            for i, nm in enumerate(names):
+                new.fields[nm] = _map(interp, f, interp.obj_getattr(tree, nm), *sub(i, nm), is_leaf=is_leaf)
+            return new
+        if isinstance(tree, B.PyList) and tree.seq is None:
+            n = len(tree.items)
+            return B.PyList([_map(interp, f, x, *sub(i, None), is_leaf=is_leaf) for i, x in enumerate(tree.items)])
+        if isinstance(tree, tuple):
+            n = len(tree)
+            return tuple(_map(interp, f, x, *sub(i, None), is_leaf=is_leaf) for i, x in enumerate(tree))
+        if isinstance(tree, dict):
+            return {k: _map(interp, f, x, *sub(i, k), is_leaf=is_leaf) for i, (k, x) in enumerate(tree.items())}
+        return base_map(interp, f, tree, *rest, is_leaf=is_leaf)
 
     @T.ext('jax.numpy.zeros')
     def _zeros(interp, shape, dtype=None):
